@@ -29,7 +29,7 @@ FUNCTIONS = ['encoder.encode', 'encoder._encode', 'encoder.prepare_data', 'encod
 EXPLANATION = ('Snapshots of every module-level object of the library around symbolic runs (frame condition), symbolic equality of results of the same call '
                'in different histories, symbolic equality of automatic and explicit re-encoding, AST scan for sources of nondeterminism. Thread interleavings are '
                'covered by argument from these premises, not explored.')
-BOUNDS = {'quick': 'scenarios: 14 symbolic calls (make with 1-3 parts, all modes, sequences of 2-3 symbols, automatic mask on a Micro symbol with concrete data, save in 6 formats, matrix_iter), '
+BOUNDS = {'quick': 'scenarios: 4 helper payload builders on symbolic text (2 characters) + 14 symbolic calls (make with 1-3 parts, all modes, sequences of 2-3 symbols, automatic mask on a Micro symbol with concrete data, save in 6 formats, matrix_iter), '
                    '6 histories, idempotence on 10 shapes',
           'thorough': 'same scenarios plus larger shapes'}
 OUTSIDE = 'thread interleavings and arbitrary call histories as such (no thread / history model in the engine): argued from (a)-(d); C extensions used by the library (zlib, codecs) are assumed pure'
@@ -164,6 +164,26 @@ def sc_auto_concrete(L_):
     return L_.segno.make('ORDER-00001', version=1, error='M', boost_error=False), True
 
 
+def sc_helper(kind):
+    """the payload builders of segno.helpers on symbolic text: a call must not leave anything behind in the module"""
+    def f(L_):
+        from symx.strings import SChars
+        H = L_.helpers
+        sc = SChars.fresh('h', 2)
+        if kind == 'wifi':
+            H.make_wifi_data(ssid=sc, password='p;w', security='WPA')
+        elif kind == 'mecard':
+            H.make_mecard_data(name='Doe;J', memo=sc, email=('a@b.c',))
+        elif kind == 'vcard':
+            H.make_vcard_data('Doe;John', 'John Doe', memo=sc, city='X')
+        elif kind == 'uri':
+            H.make_geo_data(38.8976763, -77.0365297)
+            H.make_make_email_data('me@example.org', cc='you@example.org', subject='Hi & bye', body='x')
+            H._make_epc_qr_data('Name', 'DE89370400440532013000', '12.3', text='hi')
+        return None, True
+    return f
+
+
 SCENARIOS = {
     'make:auto:2': sc_make([2], mask=1), 'make:auto-qr:3': sc_make([3], mask=2, micro=False, error='Q'), 'make:parts:2+2': sc_make([2, 2], version=1, mask=0),
     'make:parts:1+2+1': sc_make([1, 2, 1], version=2, mask=3), 'make:kanji:4': sc_make([4], mode='kanji', version=1, mask=4), 'make:hanzi:2': sc_make([2], mode='hanzi', version=1, mask=5),
@@ -171,6 +191,7 @@ SCENARIOS = {
     'sequence:count3:9': sc_sequence(9, symbol_count=3, mask=2), 'automask:concrete': sc_automask, 'save:png': sc_save('png', scale=2), 'save:ppm-colours': sc_save('ppm', finder_dark='#f00'),
     'save:svg': sc_save('svg', scale=3, light='#fff'), 'save:pbm-b0': sc_save('pbm', border=0), 'save:pam-b0': sc_save('pam', border=0), 'save:xbm-b0': sc_save('xbm', border=0),
     'save:xpm-b0': sc_save('xpm', border=0), 'save:txt-b0': sc_save('txt', border=0), 'save:png-b0': sc_save('png', border=0), 'save:pdf': sc_save('pdf'), 'save:txt+eps': sc_save('eps'), 'iterate': sc_save('iter'),
+    'helpers:wifi': sc_helper('wifi'), 'helpers:mecard': sc_helper('mecard'), 'helpers:vcard': sc_helper('vcard'), 'helpers:uri+epc': sc_helper('uri'),
 }
 
 
@@ -389,6 +410,13 @@ def replay(viol):
         for kind in ('png', 'ppm', 'svg', 'pdf', 'eps', 'txt'):
             q.save(io.BytesIO() if kind in ('png', 'ppm', 'pdf', 'svg') else io.StringIO(), kind=kind, **({'scale': 2} if kind != 'txt' else {}))
         list(q.matrix_iter(verbose=True))
+        list(q.matrix_iter(scale=2, border=1))
+        helpers.make_wifi_data(ssid='a;b', password='p;w', security='WPA')
+        helpers.make_mecard_data(name='Doe;J', memo='m:x', email=('a@b.c',))
+        helpers.make_vcard_data('Doe;John', 'John Doe', memo='a,b', city='X')
+        helpers.make_geo_data(38.8976763, -77.0365297)
+        helpers.make_make_email_data('me@example.org', subject='Hi & bye', body='x')
+        helpers._make_epc_qr_data('Name', 'DE89370400440532013000', '12.3', text='hi')
         after = snapshot(L)
         ch = diff(before, after)
         return bool(ch) or 'argument' in inp.get('changed', []), f'module-level objects changed by ordinary calls: {ch[:5]}'
